@@ -1,7 +1,8 @@
 import KvarnModel.Drv.Util
 import KvarnModel.Cache
+import KvarnModel.CacheVary
 namespace Drv.C03
-open Wire Drv Cache
+open Wire Drv Cache CacheV
 
 def b (s : String) : Bytes := s.toUTF8.toList
 
@@ -21,29 +22,51 @@ def table : List (String × Out) := [
   ("/almost",      ⟨200, 0, 4194303, .full, false, false, none⟩),
   ("/stream",      ⟨200, 0, 60, .full, true, false, none⟩),
   -- the preference depends on the request: QueryMatters for `?x=1`, Full otherwise (see `step`)
-  ("/mix",         ⟨200, 0, 60, .full, false, false, none⟩)]
+  ("/mix",         ⟨200, 0, 60, .full, false, false, none⟩),
+  -- pages with a vary rule: the output depends on the class (see `varyOut`)
+  ("/vlife",       ⟨200, 0, 60, .full, false, false, none⟩),
+  ("/vmix",        ⟨200, 0, 60, .full, false, false, none⟩),
+  ("/vttl",        ⟨200, 0, 60, .full, false, false, none⟩),
+  ("/vmix2",       ⟨200, 0, 60, .full, false, false, none⟩),
+  ("/vbig",        ⟨200, 0, 60, .full, false, false, none⟩)]
+
+def isVary (path : String) : Bool := path.startsWith "/v"
+
+/-- harness/src/groups/c03.rs `vary_out` -/
+def varyOut (path : String) (cls : Nat) (t : Out) : Out :=
+  if path = "/vlife" then { t with lifetimeS := some 2 }
+  else if path = "/vmix" && cls = 1 then { t with pref := .none }
+  else if path = "/vmix" && cls = 2 then { t with status := 403 }
+  else if path = "/vttl" && cls = 1 then { t with lifetimeS := some 1 }
+  else if path = "/vttl" && cls = 2 then { t with lifetimeS := some 2 }
+  else if path = "/vmix2" && cls = 1 then { t with kccNone := true }
+  else if path = "/vmix2" && cls = 2 then { t with stream := true }
+  else if path = "/vbig" && cls = 1 then { t with size := 4194304 }
+  else t
 
 def queries : List (Option Bytes) := [none, some [], some (b "x=1"), some (b "x=2")]
 
 structure St where
-  store : Store := []
-  counters : List Nat := List.replicate 14 0
+  store : VStore := []
+  counters : List Nat := List.replicate 19 0
 
 def BASE : Nat := 100000000
 
 /-- one event; returns the new state and the printed outcome (if any) -/
 def step (cfg : Cfg) (st : St) (ev : String) : Option (St × Option String) :=
   match ev.splitOn ":" with
-  | "R" :: t :: m :: p :: q :: ims :: _variant => do
+  | "R" :: t :: m :: p :: q :: ims :: variant => do
     let now := BASE + (← t.toNat?)
     let pi ← p.toNat?
     let (path, tmpl0) ← table[pi]?
     let query ← queries[← q.toNat?]?
-    let tmpl : Out := if path = "/mix" && query == some (b "x=1") then { tmpl0 with pref := .queryMatters } else tmpl0
+    let cls : Nat := if isVary path then (if variant = ["b"] then 1 else if variant = ["c"] then 2 else 0) else 0
+    let tmpl1 : Out := if path = "/mix" && query == some (b "x=1") then { tmpl0 with pref := .queryMatters } else tmpl0
+    let tmpl : Out := if isVary path then varyOut path cls tmpl1 else tmpl1
     let cnt := st.counters.getD pi 0
     let imsS : Option Nat := if ims = "new" then some (now / 1000) else if ims = "old" then some (now / 1000 - 10) else none
     let r : Req := { getOrHead := m == "G" || m == "H", path := b path, query := query, sanitizeOk := true, imsS := imsS }
-    let (s', rep) := handle cfg st.store now r { tmpl with body := cnt }
+    let (s', rep) := vhandle cfg st.store now r cls { tmpl with body := cnt }
     match rep with
     | .notModified => pure ({ st with store := s' }, some "304")
     | .hit o => pure ({ st with store := s' }, some s!"{o.status}#{o.body}")
@@ -51,11 +74,11 @@ def step (cfg : Cfg) (st : St) (ev : String) : Option (St × Option String) :=
   | ["K", p, q] => do
     let (path, _) ← table[← p.toNat?]?
     let query ← queries[← q.toNat?]?
-    pure ({ st with store := clearPage st.store (b path) query }, none)
+    pure ({ st with store := vclearPage st.store (b path) query }, none)
   | ["KR", q] => do        -- clear `/` as typed (no Prime expansion applies to clears)
     let query ← queries[← q.toNat?]?
-    pure ({ st with store := clearPage st.store (b "/") query }, none)
-  | ["A"] => pure ({ st with store := clearAll st.store }, none)
+    pure ({ st with store := vclearPage st.store (b "/") query }, none)
+  | ["A"] => pure ({ st with store := vclearAll st.store }, none)
   | _ => none
 
 def runEvents (cfg : Cfg) : St → List String → List String → Option (List String)
